@@ -1,0 +1,41 @@
+// Copyright (C) 2019 The go-redis Authors. All rights reserved.
+//
+// Licensed under the Apache License, Version 2.0 (the "License");
+// you may not use this file except in compliance with the License.
+// You may obtain a copy of the License at
+//
+//    http://www.apache.org/licenses/LICENSE-2.0
+//
+// Unless required by applicable law or agreed to in writing, software
+// distributed under the License is distributed on an "AS IS" BASIS,
+// WITHOUT WARRANTIES OR CONDITIONS OF ANY KIND, either express or implied.
+// See the License for the specific language governing permissions and
+// limitations under the License.
+
+//go:build verif
+
+package redis
+
+import "sync"
+
+var (
+	verifSchedMutex sync.RWMutex
+	verifSched      func(point string)
+)
+
+// VerifSetSchedule installs a function that is called at the schedule points of the server lifecycle
+// (accept loops, connection start, the phases of Stop), so that a harness can force their interleaving.
+func VerifSetSchedule(f func(point string)) {
+	verifSchedMutex.Lock()
+	verifSched = f
+	verifSchedMutex.Unlock()
+}
+
+func verifPoint(point string) {
+	verifSchedMutex.RLock()
+	f := verifSched
+	verifSchedMutex.RUnlock()
+	if f != nil {
+		f(point)
+	}
+}
